@@ -99,6 +99,15 @@ def atoms_all():
           "CASE WHEN FALSE THEN TRUE WHEN x = 1 THEN FALSE ELSE b END", "CASE WHEN NULL THEN TRUE END",
           "CASE WHEN x = 1 THEN TRUE WHEN x = 1 THEN FALSE END", "CASE 2 WHEN 1 THEN TRUE WHEN x THEN FALSE END",
           "IF(x = 1, 1, 2) = 1", "IF(b, x, y) = 1", "IF(NULL, TRUE, FALSE)", "IF(b, TRUE)", "IF(x > 1, b)"]
+    # a constant-true WHEN that is not the first branch; COALESCE as the right operand / with a NULL literal / under IS NOT NULL;
+    # BETWEEN SYMMETRIC; IF calls that differ only in their ELSE
+    A += ["CASE WHEN x > 1 THEN TRUE WHEN TRUE THEN FALSE END", "CASE WHEN x = 1 THEN 1 WHEN 1 = 1 THEN 2 ELSE 3 END = 1",
+          "CASE WHEN b THEN FALSE WHEN TRUE THEN TRUE ELSE b END", "CASE WHEN x IS NULL THEN b WHEN TRUE THEN NOT b END",
+          "CASE x WHEN 1 THEN TRUE WHEN x THEN FALSE ELSE b END",
+          "2 > COALESCE(x, 1)", "1 < COALESCE(x, 0)", "2 <= COALESCE(x, 1)", "COALESCE(x, NULL, 1) = 1", "COALESCE(x, 1) IS NOT NULL",
+          "NOT (COALESCE(x, NULL) IS NOT NULL)", "x BETWEEN SYMMETRIC 2 AND 1", "x BETWEEN 2 AND 1 OR x BETWEEN SYMMETRIC 2 AND 1",
+          "IF(x > 1, y, 0) = 1 OR IF(x > 1, y, 1) = 1", "y < IF(x IS NULL, 2, 0) AND y < IF(x IS NULL, 2, 3)",
+          "CASE WHEN x > 1 THEN TRUE ELSE FALSE END", "(CASE WHEN x > 1 THEN TRUE ELSE FALSE END) IS NULL", "NOT IF(x > 1, TRUE, FALSE)"]
     for c2 in (1, 2):
         A += [f"x + 1 {op} {c2}" for op in OPS]
     for op in OPS:
